@@ -8,8 +8,8 @@ open ZCV ZCV.Rx
 
 /-! ## `isPath` -/
 
-def sepK1 : Cls := ⟨false, [.range 97 122, .range 65 90]⟩
-def sepK2 : Cls := ⟨false, [.range 45 45, .range 43 43, .range 46 46, .range 97 122, .range 65 90, .range 48 57]⟩
+def sepK1 : Cls := ⟨false, [.range 65 90, .range 97 122]⟩
+def sepK2 : Cls := ⟨false, [.range 43 43, .range 45 46, .range 48 57, .range 65 90, .range 97 122]⟩
 def sepK3 : Cls := ⟨false, [.range 58 58]⟩
 
 /-- the generated term has the `[k1][k2]*:` shape with exactly these classes
